@@ -2,8 +2,9 @@
 """Generate /verif/MANIFEST.json from the table below (keeps the manifest valid and in one place)."""
 import json, subprocess
 
-ENGINE_NAME = {"LW": "loopsim (event-loop simulation) + wholeloop (the real select! loop on a paused, seeded tokio runtime)", "L": "loopsim (event-loop simulation)", "K": "coresim (core timed-history simulation)", "T": "tasksim (task-schedule simulation)"}
+ENGINE_NAME = {"LK": "loopsim (event-loop simulation) + coresim (the bare scheduler on generated timed histories)", "LW": "loopsim (event-loop simulation) + wholeloop (the real select! loop on a paused, seeded tokio runtime)", "L": "loopsim (event-loop simulation)", "K": "coresim (core timed-history simulation)", "T": "tasksim (task-schedule simulation)"}
 TECH = {
+    "LK": "deterministic simulation with fault injection: seeded event-loop simulator around the real shell arms (virtual clock, in-memory socket seams, fault actions) plus seeded timed event histories on the real core for the bare scheduler; independent eligibility model at every routing decision; seed+plan replay",
     "LW": "deterministic simulation with fault injection: seeded event-loop simulator around the real shell arms (virtual clock, in-memory socket seams, ledger/invariant monitors) plus whole-loop runs of the real run_sender_with_config on a paused-clock current-thread tokio runtime with seeded select! order and wire-level oracles; seed+plan replay",
     "L": "deterministic simulation with fault injection: seeded event-loop simulator around the real shell arms, virtual clock, in-memory socket seams, invariant/ledger monitors, seed+plan replay",
     "K": "deterministic simulation with fault injection: seeded timed event histories on the real sans-IO core under a virtual clock (silence, ACK starvation, RTT inflation, loss bursts, resets), temporal/invariant monitors, seed+plan replay",
@@ -20,7 +21,7 @@ P = {
    "Closed-loop simulation (send side fault-free) with retransmissions of already-acknowledged numbers, duplicate probes, receiver ACK/NAK traffic and forged well-formed cumulative ACKs (stale, duplicate, >64 ahead), SRTLA ACK lists on any link, NAK singles/ranges and link resets; after every step each link's outstanding log is compared as a set with a high-water-mark-free set model, plus in-flight = |set| >= 0 and score = window/(|set|+queued+1). Seeded sampling of histories: evidence, not proof.",
    "Trusted: the packet log exposed by the repository's own test-internals feature is the implementation's notion of outstanding packets; choices the statement leaves open (which other holder an SRTLA ACK retires, whether a NAK is charged) are read from observation. Send failures are outside the quantifier and not injected here.",
    "§P-C02"),
- "C04": (True, "L", "fault_enumeration",
+ "C04": (True, "LK", "fault_enumeration",
    "Closed-loop simulation on 2..4 uplinks with black holes, link loss, short timeouts (connected-but-timed-out links waiting out their back-off), receiver restarts / REG_ERR, run-time mode/quality/guard/timeout changes, R-flagged data and critical windows all along the stream; every routing decision after establishment is judged by an independent eligibility model (REG3 since last reset, heard within the timeout by the monitor's own stamps, not stall-gated in this decision) and a bad decision is labelled by call site (selector vs priority override). Seeded sampling of fault histories.",
    "Trusted: the stall-gated flag read back right after a decision is the one that decision computed; the mirrored loop glue; environment models.",
    "§P-C04"),
